@@ -15,3 +15,4 @@ import Props.C11
 import Props.C12
 import Props.C05
 import Props.C13
+import Props.C15
